@@ -1143,7 +1143,7 @@ MUTANTS += [
  dict(id='R8-benign-flush-write-helper', props=['C05', 'C04', 'C01', 'C02', 'C06', 'C18', 'C19'], expect='SILENT',
       edits=[(SC, '\tif s == nil || !s.dirty {\n\t\treturn nil\n\t}\n\tif err := os.MkdirAll(filepath.Dir(s.Path), 0755); err != nil {',
                   '\tif s == nil || !s.dirty {\n\t\treturn nil\n\t}\n\tif err := s.write(s.bitmap.Marshal()); err != nil {\n\t\treturn err\n\t}\n\ts.dirty = false\n\treturn nil\n}\n\nfunc (s *Sidecar) write(bitmap []byte) error {\n\tif err := os.MkdirAll(filepath.Dir(s.Path), 0755); err != nil {'),
-             (SC, '\tbitmap := s.bitmap.Marshal()\n\tif err := binary.Write(buf, binary.BigEndian, uint32(len(bitmap))); err != nil {', '\tif err := binary.Write(buf, binary.BigEndian, uint32(len(bitmap))); err != nil {'),
+             (SC, '\tbitmap := s.bitmap.Marshal()\n\tfor _, u := range s.unconfirmed {', '\tfor _, u := range s.unconfirmed {'),
              (SC, '\tif err := os.Rename(temp, s.Path); err != nil {\n\t\treturn err\n\t}\n\ts.dirty = false\n\treturn nil\n}', '\treturn os.Rename(temp, s.Path)\n}')]),
 ]
 MUTANTS += [
@@ -1430,7 +1430,7 @@ MUTANTS += [
  dict(id='F74-unconfirmed-only-for-a-known-hash', props=['C06'], expect='R-UNCONFIRMED-NOT-CLAIMED/unconfirmed/report/',
       edits=[(MS, '\t\t\t\tif ok {\n\t\t\t\t\tinfo.LastVerifiedHash = hashValue\n\t\t\t\t} else {\n\t\t\t\t\tinfo.LastVerifiedHash = resumeHashUnknown\n\t\t\t\t}\n', '\t\t\t\tif ok {\n\t\t\t\t\tinfo.LastVerifiedHash = hashValue\n\t\t\t\t} else {\n\t\t\t\t\tinfo.LastVerifiedHash = resumeHashUnknown\n\t\t\t\t\treturn info, nil\n\t\t\t\t}\n')]),
  dict(id='F74-undo-flush-clears-the-bit', props=['C06', 'C05'], expect='R-UNCONFIRMED-NOT-CLAIMED/unconfirmed/flush',
-      edits=[(SC, '\tif s.hasUnconfirmed && int(s.unconfirmed/8) < len(bitmap) {\n\t\tbitmap[s.unconfirmed/8] &^= 1 << (s.unconfirmed % 8)\n\t}\n', '')]),
+      edits=[(SC, '\tfor _, u := range s.unconfirmed {\n\t\tif int(u/8) < len(bitmap) {\n\t\t\tbitmap[u/8] &^= 1 << (u % 8)\n\t\t}\n\t}\n', '')]),
  dict(id='F74-confirm-on-every-finalisation', props=['C06'], expect='R-UNCONFIRMED-NOT-CLAIMED/unconfirmed/release/',
       edits=[(MS, '\t\t\tif ok {\n\t\t\t\t// Complete: FileEnd is in and every frame it announced was processed, so\n\t\t\t\t// the chunk that was handed in for comparison was found good or replaced.\n\t\t\t\tstate.sidecar.Confirm()\n\t\t\t}\n', '\t\t\tstate.sidecar.Confirm()\n')]),
 ]
@@ -1472,4 +1472,23 @@ MUTANTS += [
       edits=[(MS, '\t\tanswered := state.resumeRequestAnswered\n\t\tstate.resumeRequestAnswered = true\n', '\t\tanswered := state.resumeRequestAnswered\n')]),
  dict(id='F76-benign-flag-tested-in-place', props=['C15', 'C04'], expect='SILENT',
       edits=[(MS, '\t\tstate.mu.Lock()\n\t\tanswered := state.resumeRequestAnswered\n\t\tstate.resumeRequestAnswered = true\n\t\tstate.mu.Unlock()\n\t\tif answered {\n\t\t\treturn nil\n\t\t}\n', '\t\tstate.mu.Lock()\n\t\tif state.resumeRequestAnswered {\n\t\t\tstate.mu.Unlock()\n\t\t\treturn nil\n\t\t}\n\t\tstate.resumeRequestAnswered = true\n\t\tstate.mu.Unlock()\n')]),
+]
+
+# --- F77 (second report moves the reservation) ---
+MUTANTS += [
+ dict(id='F77-undo-reservation-replaced', props=['C06', 'C05'], expect='R-UNCONFIRMED-NOT-CLAIMED/unconfirmed/monotone/transfer.(*Sidecar).MarkUnconfirmed',
+      edits=[(SC, '\ts.unconfirmed = append(s.unconfirmed, i)\n', '\ts.unconfirmed = append(s.unconfirmed[:0], i)\n')]),
+ dict(id='F77-reservations-capped-at-one', props=['C06'], expect='R-UNCONFIRMED-NOT-CLAIMED/unconfirmed/monotone/transfer.(*Sidecar).MarkUnconfirmed',
+      edits=[(SC, '\ts.unconfirmed = append(s.unconfirmed, i)\n', '\ts.unconfirmed = []uint32{i}\n')]),
+ dict(id='F77-flush-clears-the-newest-only', props=['C06', 'C05'], expect='R-UNCONFIRMED-NOT-CLAIMED/unconfirmed/flush',
+      edits=[(SC, '\tfor _, u := range s.unconfirmed {\n\t\tif int(u/8) < len(bitmap) {\n\t\t\tbitmap[u/8] &^= 1 << (u % 8)\n\t\t}\n\t}\n', '\tif n := len(s.unconfirmed); n > 0 {\n\t\tu := s.unconfirmed[n-1]\n\t\tif int(u/8) < len(bitmap) {\n\t\t\tbitmap[u/8] &^= 1 << (u % 8)\n\t\t}\n\t}\n')]),
+ dict(id='F77-flush-loop-stops-at-first', props=['C06'], expect='R-UNCONFIRMED-NOT-CLAIMED/unconfirmed/flush',
+      edits=[(SC, '\tfor _, u := range s.unconfirmed {\n\t\tif int(u/8) < len(bitmap) {\n\t\t\tbitmap[u/8] &^= 1 << (u % 8)\n\t\t}\n\t}\n', '\tfor _, u := range s.unconfirmed {\n\t\tif int(u/8) < len(bitmap) {\n\t\t\tbitmap[u/8] &^= 1 << (u % 8)\n\t\t\tbreak\n\t\t}\n\t}\n')]),
+ dict(id='F77-rewrite-ends-all-lower-reservations', props=['C06'], expect='R-UNCONFIRMED-NOT-CLAIMED/unconfirmed/monotone/transfer.(*Sidecar).dropUnconfirmedLocked',
+      edits=[(SC, '\tfor k, u := range s.unconfirmed {\n\t\tif u == i {\n', '\tfor k, u := range s.unconfirmed {\n\t\tif u <= i {\n')]),
+ dict(id='F77-benign-dedupe-with-slices-contains', props=['C06', 'C05'], expect='SILENT',
+      edits=[(SC, '\t"strings"\n\t"sync"\n)', '\t"slices"\n\t"strings"\n\t"sync"\n)'),
+             (SC, '\tfor _, u := range s.unconfirmed {\n\t\tif u == i {\n\t\t\treturn\n\t\t}\n\t}\n\ts.unconfirmed = append(s.unconfirmed, i)\n', '\tif slices.Contains(s.unconfirmed, i) {\n\t\treturn\n\t}\n\ts.unconfirmed = append(s.unconfirmed, i)\n')]),
+ dict(id='F77-benign-flush-bound-by-total-chunks', props=['C06', 'C05'], expect='SILENT',
+      edits=[(SC, '\tfor _, u := range s.unconfirmed {\n\t\tif int(u/8) < len(bitmap) {\n\t\t\tbitmap[u/8] &^= 1 << (u % 8)\n\t\t}\n\t}\n', '\tfor _, u := range s.unconfirmed {\n\t\tif u < s.TotalChunks && int(u/8) < len(bitmap) {\n\t\t\tbitmap[u/8] &^= 1 << (u % 8)\n\t\t}\n\t}\n')]),
 ]
